@@ -15,7 +15,7 @@ from .common import Check, fmt_ints, fmt_matrix, kv
 THEOREMS = [
     "TtpErrors.countErrors_nonneg", "TtpErrors.scratch_irrelevant", "TtpErrors.countErrors_noOOB",
     "TtpErrors.countErrors_zero_iff", "TtpErrors.countErrors_eq_documented",
-    "TtpErrors.countErrors_le_upper_partial",
+    "TtpErrors.countErrors_le_upper_partial", "TtpErrors.upperBound_claim_false",
 ]
 
 BOUNDSCHECK = os.environ.get("NUMBA_BOUNDSCHECK", "0") == "1"
@@ -56,12 +56,16 @@ def in_space(n, rounds, plan) -> bool:
     return len(plan) == (n - 1) * rounds and all(len(r) == n and all(-n <= v <= n for v in r) for r in plan)
 
 
-def upper_key(cons: bool, cfg, days: int) -> tuple[str, bool]:
+def upper_key(cons: bool, accepted: bool, cfg, n: int, rounds: int) -> tuple[str, bool]:
     """Key of an excess over Errors.upper_bound().  The declared bound is *known* not to be a bound in
-    general (finding); `countErrors_le_upper_partial` proves it for mutually consistent plans when all
-    three minimum settings are <= 1 and separation_max can never bind (>= D-2)."""
+    general (finding `upper_bound_exceeded`, Lean: `upperBound_claim_false`); `countErrors_le_upper_partial`
+    proves it for mutually consistent plans under accepted settings whose three minima are <= 1 and whose
+    separation_max can never bind (>= D-2).  An excess inside that class contradicts the theorem and gets
+    its own key, which no known finding covers."""
     hmin, _, amin, _, smin, smax = cfg
-    in_class = cons and hmin <= 1 and amin <= 1 and smin <= 1 and smax >= days - 2
+    days = (n - 1) * rounds
+    in_class = (cons and accepted and n >= 2 and rounds >= 1 and hmin <= 1 and amin <= 1 and smin <= 1
+                and smax >= days - 2)
     return ("upper_bound_exceeded:in_proved_class" if in_class else "upper_bound_exceeded"), in_class
 
 
@@ -234,8 +238,7 @@ def oracle(ck: Check, n, rounds, cfg, plan, val, ub_impl, d, rec, stream):
         if cons:
             ck.count("consistent_plan")
             ck.spec(val == doc, "documented", f"count_errors = {val} != documented per-rule count {doc}", case)
-    D = (n - 1) * rounds
-    key, in_class = upper_key(cons, cfg, D)
+    key, in_class = upper_key(cons, accepted, cfg, n, rounds)
     if in_class:
         ck.count("upper_in_proved_class")
     ck.spec(val <= ub_impl, key, f"count_errors = {val} > Errors.upper_bound() = {ub_impl} "
@@ -293,7 +296,7 @@ def stream_exhaustive4(ck: Check, impl: Impl) -> None:
                     ck.spec(v >= 0, "negative", f"count_errors returned {v} < 0", case)
                     ck.spec((v == 0) == feas, "zero_iff",
                             f"count_errors = {v} but the plan is {'feasible' if feas else 'not feasible'}", case)
-                    key, _ = upper_key(True, cfg, 6)
+                    key, _ = upper_key(True, True, cfg, 4, 2)
                     ck.spec(v <= ub, key, f"count_errors = {v} > Errors.upper_bound() = {ub} "
                             f"(n=4, rounds=2, cfg={list(cfg)}, consistent=True)", case)
 
